@@ -331,6 +331,17 @@ class _Inline(_InternalNode):
     "relist-skipped-when-defaults-present": (["C03", "C12"], [("src/spox/_public.py",
         "    if drop_unused_inputs:\n        # The used arguments were found by traversal",
         "    if drop_unused_inputs and not model_proto.graph.initializer:\n        # The used arguments were found by traversal")]),
+    "inline-sparse-preamble-from-set": (["C12"], [("src/spox/_public.py",
+        """    preamble.extend(
+        onnx.helper.make_node("Constant", [], [i.values.name], sparse_value=i)
+        for i in model.graph.sparse_initializer
+        if i.values.name not in input_names
+    )""",
+        """    sparse_defaults = {i.values.name: i for i in model.graph.sparse_initializer}
+    preamble.extend(
+        onnx.helper.make_node("Constant", [], [name], sparse_value=sparse_defaults[name])
+        for name in sparse_defaults.keys() - input_names
+    )""")]),
 }
 
 
